@@ -72,11 +72,17 @@ Definition put (st : store) (ws id : N) (r : rec) : store := sm_put (rec_key ws 
 Record create := mkCreate { c_single : bool; c_id : N; c_qname : N; c_parent : N; c_container : N;
                             c_active : bool; c_sets : list fchange }.
 
-(* an update as built by ICUD.Update(origin): u_id/u_parent/u_container/u_active are the system
-   fields of the `changes` row (initialised from the origin, overwritten by explicit puts);
-   only they and u_changes are logged; u_origin exists in memory until the event object dies *)
-Record update := mkUpdate { u_id : N; u_origin : rec; u_parent : N; u_container : N; u_active : bool;
+(* an update as built by ICUD.Update(origin): u_id/u_parent/u_container are the system fields of
+   the `changes` row (initialised from the origin object, overwritten by explicit puts);
+   u_assign = the value the event assigned to sys.IsActive, if it did (rowType.isActiveModified);
+   u_origin exists in memory only: the log keeps the changes row *)
+Record update := mkUpdate { u_id : N; u_origin : rec; u_parent : N; u_container : N; u_assign : option bool;
                             u_changes : list fchange }.
+
+(* the activity VALUE the changes row carries (and logs): newUpdateRec initialises it from the object
+   handed to ICUD.Update *)
+Definition u_active (u : update) : bool :=
+  match u_assign u with Some b => b | None => r_active (u_origin u) end.
 
 Record event := mkEvent { e_ws : N; e_creates : list create; e_updates : list update }.
 
@@ -84,13 +90,23 @@ Definition create_rec (c : create) : rec :=
   mkRec (c_id c) (c_qname c) (c_parent c) (c_container c) (c_active c)
         (map (fun ch => app_change ch None) (c_sets c)).
 
+(* the activity an update leaves: updateRecType.build sets the result's flag to the VALUE of the
+   changes row whenever it differs from the record's, whether or not the event assigned it.  That
+   value is the assigned one; otherwise the one of the object handed to ICUD.Update (finding
+   F-C03-2) or, once validEvent refreshes it, the one of the stored record *)
+Definition upd_active (o : rec) (u : update) : bool :=
+  match u_assign u with
+  | Some b => b
+  | None => if rec_update_activity_from_store then r_active o else r_active (u_origin u)
+  end.
+
 (* updateRecType.build; None = ErrUnableToUpdateSystemField *)
 Definition build_update (o : rec) (u : update) : option rec :=
   if negb (r_id o =? u_id u) then None
   else if negb (u_parent u =? 0) && negb (u_parent u =? r_parent o) then None
   else if negb (u_container u =? 0) && negb (u_container u =? r_container o) then None
   else Some (mkRec (r_id o) (r_qname o) (r_parent o) (r_container o)
-                   (if Bool.eqb (u_active u) (r_active o) then r_active o else u_active u)
+                   (upd_active o u)
                    (overlay (r_fields o) (u_changes u))).
 
 Definition event_ids (e : event) : list N := map c_id (e_creates e) ++ map u_id (e_updates e).
@@ -220,8 +236,28 @@ Definition fresh_origins (st : store) (e : event) : bool :=
 Definition new_ids_fresh (st : store) (e : event) : bool :=
   forallb (fun c => match lookup st (e_ws e) (c_id c) with None => true | Some _ => false end) (e_creates e).
 
-Definition valid_event (st : store) (e : event) : bool :=
+(* an update that does not assign sys.IsActive must not carry another activity than the stored
+   record's: true by construction once validEvent refreshes the changes row; until then (finding
+   F-C03-2) it is a hypothesis on the object handed to ICUD.Update *)
+Definition activity_ok (st : store) (e : event) : bool :=
+  rec_update_activity_from_store ||
+  forallb (fun u => match u_assign u, lookup st (e_ws e) (u_id u) with
+                    | None, Some o => Bool.eqb (r_active (u_origin u)) (r_active o)
+                    | _, _ => true
+                    end) (e_updates e).
+
+(* valid up to the activity hypothesis *)
+Definition valid_event_but_activity (st : store) (e : event) : bool :=
   accepts st e && ev_bounded e && fresh_origins st e && new_ids_fresh st e.
+
+Definition valid_event (st : store) (e : event) : bool :=
+  valid_event_but_activity st e && activity_ok st e.
+
+Fixpoint valid_history_but_activity (st : store) (h : list event) : bool :=
+  match h with
+  | [] => true
+  | e :: r => valid_event_but_activity st e && valid_history_but_activity (fst (apply st e)) r
+  end.
 
 (* what BuildRawEvent + ID generation alone guarantee (no statement about the stored rows the updates meet) *)
 Definition accepted_event (st : store) (e : event) : bool :=
@@ -261,10 +297,10 @@ Fixpoint field_of (ts : list touch) (i : nat) : option fval :=
   | TCreate c :: _ => app_change (nth i (c_sets c) Keep) None
   end.
 
-Definition active_of (ts : list touch) : bool :=
+Fixpoint active_of (ts : list touch) : bool :=
   match ts with
   | [] => true
-  | TUpdate u :: _ => u_active u
+  | TUpdate u :: older => match u_assign u with Some b => b | None => active_of older end
   | TCreate c :: _ => c_active c
   end.
 
@@ -332,7 +368,8 @@ Definition create_eqb (a b : create) : bool :=
 
 Definition update_logged_eqb (a b : update) : bool :=
   (u_id a =? u_id b) && (u_parent a =? u_parent b) && (u_container a =? u_container b)
-  && Bool.eqb (u_active a) (u_active b) && list_eqb fchange_eqb (u_changes a) (u_changes b).
+  && Bool.eqb (u_active a) (u_active b) && option_eqb Bool.eqb (u_assign a) (u_assign b)
+  && list_eqb fchange_eqb (u_changes a) (u_changes b).
 
 (* update rows are stored in Go map order: compared as sets (ids are distinct in an accepted event) *)
 Definition logged_eqb (a b : event) : bool :=
